@@ -223,20 +223,21 @@ func cmdCheck(args []string) {
 				}
 				continue
 			}
-			// a failing obligation
+			// a failing obligation: try to replay a counterexample on the real code
 			inLock := locked[o.Name]
-			if o.Result.Status == "sat" || inLock {
-				rp, reproduced := replayObligation(e, o, outDir, work)
+			rp, reproduced := replayObligation(e, o, outDir, work)
+			switch {
+			case reproduced:
 				violations++
-				if reproduced {
-					violation(rp, "")
-				} else {
-					violation(rp, " no-failing-input-found")
-				}
+				violation(rp, "")
+				fmt.Printf("  failed obligation: %s [%s] at %s (counterexample reproduced on the real code)\n", o.Name, o.Result.Status, o.Pos)
+			case inLock:
+				violations++
+				violation(rp, " no-failing-input-found")
 				fmt.Printf("  failed obligation: %s [%s] at %s\n", o.Name, o.Result.Status, o.Pos)
-			} else {
+			default:
 				undecided = append(undecided, o.Name+" ("+o.Result.Status+")")
-				fmt.Printf("UNDECIDED %s [%s] (not in the lock: not counted as proved, not an alarm)\n", o.Name, o.Result.Status)
+				fmt.Printf("UNDECIDED %s [%s] (not in the lock, no reproduced counterexample: not counted as proved, not an alarm)\n", o.Name, o.Result.Status)
 				expected--
 			}
 		}
